@@ -371,4 +371,18 @@ Section Routes.
     | Some b => Some (decompress (opener_index keys fname) b)
     | None => None
     end.
+  (* the image as a stateful object: its content and its current file_map (member -> file name; holders
+     carrying an open fileobj or a pos are outside the model).  FileBasedImage.to_filename does
+     `self.file_map = self.filespec_to_file_map(filename)` BEFORE writing: the previous map plays no part *)
+  Record istate := mkI { icontent : Img; imap : dict }.
+  Definition to_filename_st (k : klass) (st : istate) (name : str) (fs : fsys) : res (option (istate * fsys)) :=
+    match filespec_to_file_map k name with
+    | Err e => Err e
+    | Ok fm =>
+      match to_filename k (icontent st) name fs with
+      | Err e => Err e
+      | Ok None => Ok None
+      | Ok (Some fs') => Ok (Some (mkI (icontent st) fm, fs'))
+      end
+    end.
 End Routes.
